@@ -119,7 +119,7 @@ def main():
             print(pid, 'ERROR', ex); continue
         ok = meta.get('demo_passes_without_change') and meta.get('patch_applies') and meta.get('suite_passes_with_change') and meta.get('demo_fails_with_change')
         print(pid, 'CONFIRMED' if ok else 'NOT-CONFIRMED', {k: v for k, v in meta.items() if k not in ('ran',)})
-        d = os.path.join('/verif/seeded', pid + ({'': '', '2': 'b', '3': 'c'}[ROUND]))
+        d = os.path.join('/verif/seeded', pid + ({'': '', '2': 'b', '3': 'c', '4': 'd', '5': 'e', '6': 'f'}[ROUND]))
         if ok:
             os.makedirs(d, exist_ok=True)
             open(os.path.join(d, 'patch.diff'), 'w').write(diff)
